@@ -356,7 +356,8 @@ MkCall(fn, vals) ==
   Call(CP[fn], [i \in 1..Len(vals) |-> Arg(IF i <= NumPos[fn] THEN <<>> ELSE CP[Sig[fn][i].n], vals[i])])
 TGdim(n, o)  == IF o = 0 \/ Bug = "StretchOrderDropped" THEN VDim(n) ELSE VInf(n, o)
 TBool(b)     == VStr(IF b THEN CP.true ELSE CP.false)
-TRdim(n)     == IF n = Running /\ Bug # "RunningPrintedAsDimension" THEN VStr(CP.running) ELSE VDim(n)
+TRdim(n)     == IF n # Running THEN VDim(n)
+                ELSE IF Bug = "RunningPrintedAsDimension" THEN VDim(-MaxDimen) ELSE VStr(CP.running)
 TRatio(n, D) == VStr(PrintScaled(IF DevRatioSign \in D THEN Abs(n) ELSE n))
 CharsCall(buf, font) == MkCall("chars", <<VStr(buf), VInt(font)>>)
 
@@ -446,6 +447,9 @@ NormalForm(m, p) == LET r == FromProg(m, p) IN
                     r.errs = <<>> => LET q == Norm(m, p) IN FromProg(m, q) = r /\ Norm(m, q) = q
 \* text level: every layout of a program reads back as that program
 RenderReads(p, st) == Read(Render(p, st)) = [ok |-> TRUE, p |-> p]
+\* the whole way: list -> calls -> text -> tokens -> calls -> list
+TextRoundTrip(m, how, l, st) ==
+  LET rd == Read(Render(ToCalls(m, how, l, {}), st)) IN rd.ok /\ FromProg(m, rd.p) = [list |-> l, errs |-> <<>>]
 
 ---------------------------------------------------------------------------
 (* Deviations: what the implementation is recorded to do instead           *)
